@@ -58,3 +58,33 @@ Definition immutable_handout (tb : tables) (spec : list row) (T : btype) (attr :
    — the gate for stored references that did not come through attribute access (render(f=lst.append)). *)
 Definition immutable_is_safe_callable (spec : list row) (T : btype) (m : string) : bool :=
   negb (modifies_known_mutable spec T m).
+
+(* Stored references to container methods, in the forms a host can hand them to a template:
+   the bound method l.append, the unbound method list.append (a method descriptor; the container is an argument),
+   functools.partial of either (nested partials too), anything else.
+   ImmutableSandboxedEnvironment.is_safe_callable:
+       if isinstance(obj, partial): return self.is_safe_callable(obj.func)
+       if isinstance(obj, (MethodType, BuiltinMethodType)): return not modifies_known_mutable(obj.__self__, obj.__name__)
+       if isinstance(obj, MethodDescriptorType): return not modifies_known_mutable(obj.__objclass__, obj.__name__)
+       return True
+   modifies_known_mutable answers for the type as for its instances (isinstance or issubclass): one [btype]. *)
+Inductive stored_ref :=
+  | RBound (T : btype) (m : string)
+  | RUnbound (T : btype) (m : string)
+  | RPartial (r : stored_ref)
+  | ROther.
+
+Fixpoint immutable_safe_ref (spec : list row) (r : stored_ref) : bool :=
+  match r with
+  | RBound T m | RUnbound T m => negb (modifies_known_mutable spec T m)
+  | RPartial r => immutable_safe_ref spec r
+  | ROther => true
+  end.
+
+(* the method a reference ends up calling *)
+Fixpoint ref_target (r : stored_ref) : option (btype * string) :=
+  match r with
+  | RBound T m | RUnbound T m => Some (T, m)
+  | RPartial r => ref_target r
+  | ROther => None
+  end.
